@@ -148,6 +148,14 @@ Picked ==
               Pr(<<X>>),
               SWhile(EBin("<", X, Num(3)), <<SAsg(X, EBin("+", X, Num(1))), SInfer("y", EBin("*", X, Num(2))), Pr(<<X, EVar("y", T_num)>>)>>),
               SInfer("y", EStr(<<121>>)), Pr(<<X, EVar("y", T_str)>>)>>, <<>>, <<>>),
+    \* for ... range over a map: the keys it had at loop entry that are still present (drain, delete later, insert)
+    Program(<<SInfer("m", EMap(<<<<97>>, <<98>>, <<99>>, <<100>>>>, <<Num(1), Num(2), Num(3), Num(4)>>)), SInfer("s", EStr(<<>>)),
+              SFor("k", "map", <<EVar("m", TMap(T_num))>>, <<SAsg(EVar("s", T_str), EBin("+", EVar("s", T_str), EVar("k", T_str))), SCall(ECallB("del", <<EVar("m", TMap(T_num)), EVar("k", T_str)>>))>>),
+              Pr(<<EVar("s", T_str), ECallB("len", <<EVar("m", TMap(T_num))>>)>>)>>, <<>>, <<>>),
+    Program(<<SInfer("m", EMap(<<<<97>>, <<98>>, <<99>>, <<100>>>>, <<Num(1), Num(2), Num(3), Num(4)>>)), SInfer("s", EStr(<<>>)),
+              SFor("k", "map", <<EVar("m", TMap(T_num))>>, <<SAsg(EVar("s", T_str), EBin("+", EVar("s", T_str), EVar("k", T_str))),
+                     SIf(<<EBin("==", EVar("k", T_str), EStr(<<97>>))>>, << <<SCall(ECallB("del", <<EVar("m", TMap(T_num)), EStr(<<99>>)>>)), SAsg(EDot(EVar("m", TMap(T_num)), <<122>>), Num(9))>> >>, <<>>)>>),
+              Pr(<<EVar("s", T_str), EVar("m", TMap(T_num))>>)>>, <<>>, <<>>),
     \* break leaves exactly the innermost loop
     Program(<<SFor("i", "num", <<Num(3)>>,
                  <<SFor("j", "num", <<Num(3)>>, <<SIf(<<EBin("==", EVar("j", T_num), Num(1))>>, <<<<SBrk>>>>, <<>>), Pr(<<IV, EVar("j", T_num)>>)>>),
